@@ -418,7 +418,7 @@ Lemma decorate_sim sd sn s p :
   Sim (snd (decorate sd s p)) (snd (decorate sn s p)).
 Proof.
   intros H. unfold decorate. cbv zeta. rewrite (ss_decorators (sim_sc H s)).
-  destruct (existsb _ _); cbn [fst snd]; [split; [reflexivity|exact H]|].
+  destruct (negb _ || existsb _ _); cbn [fst snd]; [split; [reflexivity|exact H]|].
   split; [reflexivity|]. rewrite (sim_decs H).
   apply Sim_upd_scope.
   - apply Sim_set_decs. exact H.
